@@ -178,14 +178,18 @@ Section T.
     exists o' r h', sk_remove_tag sc o n h = Done (o', r, h') /\ Tinv o' h'.
   Proof.
     intros (HI & Hz & HL & HF). destruct HI as (l & W & B & Ln). pose proof Ln as Ln'. rewrite B in Ln'.
-    destruct (remove_tag_enc (o_tags o) l n W B Ln') as (s1 & l1 & R & W1 & B1 & L1 & N1).
-    assert (I1 : Inv s1) by (exists l1; split; [exact W1|]; split; [exact B1|]; rewrite L1, B1; reflexivity).
+    destruct (remove_tag_enc (o_tags o) l n W B Ln') as (s1 & R & B1 & L1).
+    pose proof (wf_remove_first n l W) as W1.
+    assert (I1 : Inv s1)
+      by (exists (remove_first n l); split; [exact W1|]; split; [exact B1|]; rewrite L1, B1; reflexivity).
     unfold sk_remove_tag. rewrite R. cbn [bind].
-    destruct (((match l with [] => - TagIter.EINVAL | _ :: _ => 0 end) =? 0) && negb (t_len s1 =? t_len (o_tags o))) eqn:E.
+    destruct ((0 =? 0) && negb (t_len s1 =? t_len (o_tags o))) eqn:E.
     - apply andb_true_iff in E. destruct E as [E1 E2].
       destruct (o_ptr o) as [b|] eqn:HP.
       2:{ exfalso. assert (Z0 : t_len (o_tags o) = 0) by (apply Hz; reflexivity).
-          rewrite Ln' in Z0. apply zlen_enc_0 in Z0. subst l. discriminate E1. }
+          pose proof Z0 as Z1. rewrite Ln' in Z1. apply zlen_enc_0 in Z1. subst l.
+          cbn [remove_first] in L1. rewrite Z0 in E2. change (zlen (enc [])) with 0 in L1. rewrite L1 in E2.
+          discriminate E2. }
       cbn [optl] in HL. rewrite deref_some by (rewrite HL; left; reflexivity). cbn [bind].
       destruct (t_len s1 =? 0) eqn:E0.
       + destruct (free_some b h) as (h1 & F & L3 & N3 & C3); [rewrite HL; left; reflexivity|].
@@ -205,9 +209,7 @@ Section T.
           split; [exact L2'|]. intros x Hx. rewrite L2' in Hx. destruct Hx as [<-|[]]. lia.
     - eexists _, _, h. split; [reflexivity|]. split; [exact I1|]. cbn [o_tags o_ptr].
       assert (EL : t_len s1 = t_len (o_tags o)).
-      { apply andb_false_iff in E. destruct E as [E|E]; [|lia].
-        destruct l as [|t0 r0]; [|discriminate E].
-        rewrite (N1 eq_refl) in L1. rewrite L1, Ln'. reflexivity. }
+      { apply andb_false_iff in E. destruct E as [E|E]; [discriminate E | lia]. }
       rewrite EL. split; [exact Hz|]. split; [exact HL | exact HF].
   Qed.
 
@@ -228,7 +230,7 @@ Section T.
     { destruct (t_len (o_tags o) =? 0); [eexists; reflexivity|].
       rewrite (read_T o h HT). cbn [bind].
       destruct HT as (HI & _). destruct HI as (l & W & B & Ln). rewrite B in Ln.
-      destruct (check_tag_enc (o_tags o) l n W B Ln) as (c & Cc & _). exists c. exact Cc. }
+      exists (count_num n l). apply check_tag_enc; assumption. }
     destruct P as (c & P). rewrite P. cbn [bind].
     destruct (c <? 0).
     - exists o, c, h. split; [reflexivity | exact HT].
@@ -250,8 +252,8 @@ Section T.
     - apply set_T; [assumption | apply wf_channel; assumption].
     - rewrite (read_T o h HT). cbn [bind].
       destruct HT as (HI & HR). destruct HI as (l & W & B & Ln). pose proof Ln as Ln'. rewrite B in Ln'.
-      destruct (check_tag_enc (o_tags o) l n W B Ln') as (c & Cc & _). rewrite Cc. cbn [bind].
-      exists o, c, h. split; [reflexivity|]. split; [exists l; auto | exact HR].
+      rewrite (check_tag_enc (o_tags o) l n W B Ln'). cbn [bind].
+      exists o, (count_num n l), h. split; [reflexivity|]. split; [exists l; auto | exact HR].
   Qed.
 
   Lemma run_T : forall ops o h, Tinv o h -> Forall wf_op ops ->
@@ -536,7 +538,8 @@ Proof. intros sc o h num o' r h' _ _ H. exact (remove_cases _ _ _ _ _ _ _ H). Qe
 
 Lemma remove_tag_codes s n t' r : remove_tag s n = Done (t', r) -> r = 0 \/ (r = - TagIter.EINVAL /\ t' = s).
 Proof.
-  unfold remove_tag. destruct (iter_of s) as [[el|c]| |]; cbn [bind]; try discriminate.
+  unfold remove_tag. destruct (t_len s =? 0); [intros H; inversion H; subst; left; reflexivity|].
+  destruct (iter_of s) as [[el|c]| |]; cbn [bind]; try discriminate.
   - destruct (find_num n el); intros H; inversion H; subst; left; reflexivity.
   - intros H; inversion H; subst. right. split; reflexivity.
 Qed.
@@ -569,10 +572,8 @@ Proof.
     destruct (0 <? c).
     + intros H. destruct (remove_cases _ _ _ _ _ _ _ H) as (t' & R & T). rewrite T1 in R.
       destruct (remove_tag_enc s1 (l ++ [(num, data)]) num (wf_tags_snoc _ _ W Hw) Qb Ql)
-        as (s' & l' & R' & _).
-      assert (E0 : match l ++ [(num, data)] with [] => - TagIter.EINVAL | _ :: _ => 0 end = 0)
-        by (destruct l; reflexivity).
-      rewrite E0 in R'. rewrite R' in R. inversion R; subst. left. split; [reflexivity | exact R'].
+        as (s' & R' & _).
+      rewrite R' in R. inversion R; subst. left. split; [reflexivity | exact R'].
     + intros H. injection H as E1 E2 E3. subst o' r h'. left. split; [reflexivity|]. rewrite T1. reflexivity.
   - subst r1 o1. change (negb (- Alloc.ENOMEM =? 0)) with true. cbv iota.
     intros H; inversion H; subst. right. split; [unfold Alloc.ENOMEM; lia | reflexivity].
